@@ -151,7 +151,19 @@ def e2e(case):
            "solver": {"closure": closure, "footprint": True, "precision": str(rng.choice(["single", "double"]))}}
     desc = dict(wind_dir=wd, closure=closure, zm=zm, nx=nx, ny=ny, dx=dx, dy=dy, ws=ws, L=L, forcing=forcing, halo=halo, nz=nz,
                 ref=(ref_lat, ref_lon), precision=raw["solver"]["precision"])
-    cfg = parse_config_dict(raw)
+    if case["idx"] % 5 == 2:
+        # the window was first laid out around another origin (a kilometre or so away) and then moved, the documented way:
+        # dataclasses.replace on the parsed configuration, with the same tower objects
+        import dataclasses as _dc
+
+        raw0 = json_copy(raw)
+        raw0["domain"]["ref_lat"] = ref_lat + float(rng.uniform(-0.01, 0.01))
+        raw0["domain"]["ref_lon"] = ref_lon + float(rng.uniform(-0.01, 0.01))
+        cfg0 = parse_config_dict(raw0)
+        cfg = _dc.replace(cfg0, domain=_dc.replace(cfg0.domain, ref_lat=ref_lat, ref_lon=ref_lon))
+        desc["history"] = "configuration parsed around another origin, then re-centred with dataclasses.replace"
+    else:
+        cfg = parse_config_dict(raw)
     tw = cfg.towers[0]
     if abs(tw.x - xt) > 1e-6 or abs(tw.y - yt) > 1e-6:
         return {"evals": 1, "nontrivial": True, "sig": f"{case['idx']}", "violations": [
